@@ -614,6 +614,11 @@ class Inliner:
             if g is not None:
                 out.extend(g)
                 continue
+            hoisted = self._hoist_nested(st, chain, cls)
+            if hoisted is not None:
+                out.extend(self._rewrite_block(hoisted, chain, cls)
+                           if self._depth_ok() else hoisted)
+                continue
             call = None
             kind = None
             if isinstance(st, ast.Expr) and isinstance(st.value, ast.Call):
@@ -662,6 +667,80 @@ class Inliner:
                 self._rewrite_exprs(st, chain, cls)
                 out.append(st)
         return out
+
+    # ---- statement helpers called inside an expression
+    def _hoist_nested(self, st, chain, cls):
+        """``x = f(helper(a))``  ->  ``t = helper(a); x = f(t)`` when the
+        helper is a statement helper (cannot be substituted as an
+        expression) and nothing with an effect is evaluated before it in the
+        statement.  Returns the two statements, else None."""
+        if not isinstance(st, (ast.Assign, ast.AugAssign, ast.AnnAssign,
+                               ast.Expr, ast.Return)) or \
+                getattr(st, "value", None) is None:
+            return None
+        caller = chain[-1]
+        root = st.value
+        if isinstance(root, ast.Call):
+            h0 = self._resolve(root, chain, cls)
+            if h0 is not None and h0.ok and h0.stmts is not None:
+                return None       # handled as a whole-statement call
+        parents = {}
+        for n in ast.walk(root):
+            for c in ast.iter_child_nodes(n):
+                parents[id(c)] = n
+        cands = []
+        for n in ast.walk(root):
+            if isinstance(n, ast.Call):
+                h = self._resolve(n, chain, cls)
+                if h is not None and h.ok and not h.gen and \
+                        h.stmts is not None and h.expr is None and \
+                        h.node is not caller:
+                    cands.append((n, h))
+        if len(cands) != 1:
+            return None
+        call, h = cands[0]
+        if self._bind(h, call) is None:
+            return None
+        anc = set()
+        cur = call
+        while id(cur) in parents:
+            par = parents[id(cur)]
+            if isinstance(par, (ast.Lambda, ast.ListComp, ast.SetComp,
+                                ast.DictComp, ast.GeneratorExp, ast.IfExp,
+                                ast.NamedExpr, ast.Await, ast.Yield,
+                                ast.YieldFrom)):
+                return None
+            if isinstance(par, ast.BoolOp) and par.values[0] is not cur:
+                return None
+            anc.add(id(par))
+            cur = par
+        inside_call = {id(x) for x in ast.walk(call)}
+        for n in ast.walk(root):
+            if isinstance(n, (ast.Call, ast.Yield, ast.YieldFrom, ast.Await,
+                              ast.NamedExpr)) and id(n) not in anc and \
+                    id(n) not in inside_call:
+                return None
+        if isinstance(st, ast.AugAssign) and not isinstance(
+                st.target, ast.Name):
+            return None
+        names = _all_names(caller)
+        tmp = f"__{h.name.lstrip('_')}_value"
+        while tmp in names:
+            tmp += "_"
+        asg = ast.Assign(targets=[ast.Name(id=tmp, ctx=ast.Store())],
+                         value=call)
+        ast.copy_location(asg, st)
+
+        class R(ast.NodeTransformer):
+            def visit_Call(self, node):
+                if node is call:
+                    return ast.copy_location(
+                        ast.Name(id=tmp, ctx=ast.Load()), node)
+                return self.generic_visit(node)
+        st.value = R().visit(st.value)
+        ast.fix_missing_locations(asg)
+        ast.fix_missing_locations(st)
+        return [asg, st]
 
     # ---- generator helpers
     def _gen_helper(self, e, chain, cls):
@@ -821,6 +900,46 @@ class Inliner:
 
             visit_AsyncFunctionDef = visit_FunctionDef
             visit_ClassDef = visit_FunctionDef
+
+            def _as_lambda(self, v):
+                """key=_helper  ->  key=lambda x: <body of _helper>"""
+                if not (isinstance(v, ast.Name) and isinstance(
+                        v.ctx, ast.Load)):
+                    return v
+                fake = ast.Call(func=v, args=[], keywords=[])
+                h = me._resolve(fake, chain, cls)
+                if h is None or not h.ok or h.gen or h.expr is None or \
+                        h.defaults or h.is_method or h.node is caller:
+                    return v
+                lam = ast.Lambda(
+                    args=ast.arguments(
+                        posonlyargs=[], args=[ast.arg(arg=p_) for p_ in
+                                              h.params],
+                        kwonlyargs=[], kw_defaults=[], defaults=[]),
+                    body=copy.deepcopy(h.expr))
+                ast.copy_location(lam, v)
+                ast.fix_missing_locations(lam)
+                h.inlined += 1
+                me.applied.append((h.q, getattr(caller, "name", "?"),
+                                   v.lineno))
+                return lam
+
+            def visit_Call(self, node):  # noqa: F811
+                self.generic_visit(node)
+                node.args = [self._as_lambda(a) for a in node.args]
+                for k in node.keywords:
+                    k.value = self._as_lambda(k.value)
+                h = me._resolve(node, chain, cls)
+                if h is not None and h.ok and not h.gen and \
+                        h.node is not caller:
+                    e = me._instantiate_expr(h, node, caller)
+                    if e is not None:
+                        h.inlined += 1
+                        me.applied.append((h.q, getattr(
+                            caller, "name", "?"), node.lineno))
+                        return e
+                    h.left += 1
+                return node
 
         t = T()
         for field, val in ast.iter_fields(st):
